@@ -615,6 +615,14 @@ func (vc *VC) enterLoop(fr *Frame, li *loopInfo) {
 		fr.vals[phi] = vc.freshVal(hst, fmt.Sprintf("%s!loop", phiName(phi)), phi.Type())
 	}
 	fr.entryOf[h] = hst
+	{
+		var cs []string
+		for k := range vc.compSort {
+			cs = append(cs, k)
+		}
+		sort.Strings(cs)
+		vc.assumeHeapClosure(hst, cs)
+	}
 	isRange := false
 	for _, ins := range h.Instrs {
 		if phi, ok := ins.(*ssa.Phi); ok && phi.Comment == "rangeindex" {
